@@ -1,6 +1,7 @@
 import Ekit.Props.C03
 import Ekit.Props.C03Rev
 import Ekit.Props.C03HM
+import Ekit.Props.C03HMPut
 open Ekit.HashMap
 #print axioms c03_step_refines
 #print axioms c03_empty_refines
@@ -56,3 +57,8 @@ open Ekit.HashMap
 #print axioms Ekit.MiniGo.HM.Refine.c03_hm_get_refines_spec
 #print axioms Ekit.MiniGo.HM.Refine.c03_hm_formatting_clean
 #print axioms Ekit.MiniGo.HM.Refine.c03_hm_factory_clean
+#print axioms Ekit.MiniGo.HM.Refine.c03_hm_new_strong
+#print axioms Ekit.MiniGo.HM.Refine.c03_hm_put_refines
+#print axioms Ekit.MiniGo.HM.Refine.c03_hm_delete_refines
+#print axioms Ekit.MiniGo.HM.Refine.Put_sim
+#print axioms Ekit.MiniGo.HM.Refine.Delete_sim
